@@ -87,9 +87,9 @@ func isAncestor(a, b int) bool {
 	return b == a+1 && b <= 2
 }
 
-func c15Body(t *testing.T, depth, ntx int) func(c *verifeng.Chooser) {
+func c15Body(t *testing.T, depth, ntx int, bursts bool) func(c *verifeng.Chooser) {
 	return func(c *verifeng.Chooser) {
-		out := verifbubble.Run(t, func() { c15Run(c, depth, ntx) })
+		out := verifbubble.Run(t, func() { c15Run(c, depth, ntx, bursts) })
 		switch {
 		case out.Panic != nil:
 			if ie, ok := out.Panic.(verifeng.InfraError); ok {
@@ -106,7 +106,7 @@ func c15Body(t *testing.T, depth, ntx int) func(c *verifeng.Chooser) {
 	}
 }
 
-func c15Run(c *verifeng.Chooser, depth, ntx int) {
+func c15Run(c *verifeng.Chooser, depth, ntx int, bursts bool) {
 	h := &c15h{c: c, txs: c15Txs()[:ntx], byHash: map[chainhash.Hash]int{}}
 	for i, tx := range h.txs {
 		h.byHash[tx.TxHash()] = i
@@ -133,8 +133,19 @@ func c15Run(c *verifeng.Chooser, depth, ntx int) {
 	var queued string // one stimulus waiting for the busy handler
 	var queuedTx int
 	var queuedTask *verifbubble.Task
+	// a second stimulus may wait behind the first if the two are a
+	// confirmation report and a block event: which of them the handler takes
+	// first once it is free is the select's choice
+	var queued2 string
+	var queued2Tx int
+	var queued2Task *verifbubble.Task
 	roundActive := false
 	var remaining []int // txs the running round still has to send
+	var optional []int  // txs the running round may or may not send
+	var burst *verifbubble.Burst
+	if bursts {
+		burst = verifbubble.NewBurst(c)
+	}
 	var roundCB *parked
 	stopped := false
 	expectRet := map[*verifbubble.Task]error{}
@@ -194,6 +205,17 @@ func c15Run(c *verifeng.Chooser, depth, ntx int) {
 				}
 			}
 			if pos < 0 {
+				opt := -1
+				for i, r := range optional {
+					if r == p.tx {
+						opt = i
+					}
+				}
+				if opt >= 0 {
+					optional = append(optional[:opt:opt], optional[opt+1:]...)
+					roundCB = p
+					continue
+				}
 				return c.Fail("rebroadcast", "rebroadcast-of-wrong-tx:"+c15Names[p.tx],
 					"round %d rebroadcasts %s, which was not accepted-and-unconfirmed when the round started (or was already sent in this round); still due: %v", rounds, c15Names[p.tx], names(remaining))
 			}
@@ -204,12 +226,21 @@ func c15Run(c *verifeng.Chooser, depth, ntx int) {
 				}
 			}
 			remaining = append(remaining[:pos:pos], remaining[pos+1:]...)
+			// an optional parent that has not come by now must not come later
+			var keepOpt []int
+			for _, r := range optional {
+				if !isAncestor(r, p.tx) {
+					keepOpt = append(keepOpt, r)
+				}
+			}
+			optional = keepOpt
 			roundCB = p
 		}
 		return false
 	}
 	quiesce := func() bool {
 		verifbubble.Wait()
+		burst.End()
 		if syncParked() {
 			return true
 		}
@@ -220,6 +251,7 @@ func c15Run(c *verifeng.Chooser, depth, ntx int) {
 					"round %d ended (or stalled) without rebroadcasting %v", rounds, names(remaining))
 			}
 			roundActive = false
+			optional = nil
 		}
 		return false
 	}
@@ -237,6 +269,29 @@ func c15Run(c *verifeng.Chooser, depth, ntx int) {
 		// stimuli for the handler: allowed when it is idle, or as the single
 		// queued stimulus while it sits in its own callback.
 		canSend := !stopped && queued == ""
+		if !stopped && handlerBusy != nil && queued2 == "" {
+			switch queued {
+			case "conf":
+				menu = append(menu, ev{"block-event (behind the confirmation report)", func() {
+					blocks <- blockntfns.NewBlockConnected(wire.BlockHeader{}, 1)
+					queued2, queued2Task = "block", nil
+				}})
+			case "block":
+				for i := range h.txs {
+					i := i
+					if pending[i] {
+						menu = append(menu, ev{"MarkAsConfirmed(" + c15Names[i] + ") (behind the block event)", func() {
+							tk := verifbubble.Go("MarkAsConfirmed("+c15Names[i]+")", func() (any, error) {
+								b.MarkAsConfirmed(h.txs[i].TxHash())
+								return nil, nil
+							})
+							tasks = append(tasks, tk)
+							queued2, queued2Tx, queued2Task = "conf", i, tk
+						}})
+					}
+				}
+			}
+		}
 		if canSend {
 			for i := range h.txs {
 				i := i
@@ -308,6 +363,32 @@ func c15Run(c *verifeng.Chooser, depth, ntx int) {
 					}
 					handlerTask = nil
 					p.release <- a.err
+					// a confirmation report and a block event are both
+					// waiting: the report counts from the moment the call
+					// returned. If it has not (the handler has to take it
+					// first), either order is the handler's right and the
+					// transaction may or may not be part of the round.
+					if queued != "" && queued2 != "" && !stopped {
+						ctx, ctk := queuedTx, queuedTask
+						if queued2 == "conf" {
+							ctx, ctk = queued2Tx, queued2Task
+						}
+						reported := ctk.Done()
+						was := pending[ctx]
+						queued, queuedTask, queued2, queued2Task = "", nil, "", nil
+						handle("conf", ctx)
+						handle("block", 0)
+						if !reported && was && roundActive {
+							optional = append(optional, ctx)
+						}
+						if !roundActive && !reported && was {
+							// nothing else is pending: a round with just
+							// this transaction may run
+							roundActive, remaining, optional = true, nil, []int{ctx}
+							rounds++
+						}
+						return
+					}
 					// the queued stimulus is handled next
 					if queued != "" && !stopped {
 						k, tx, tk := queued, queuedTx, queuedTask
@@ -367,7 +448,7 @@ func c15Run(c *verifeng.Chooser, depth, ntx int) {
 			break
 		}
 		e := menu[c.ChooseFree(len(menu), "event")]
-		c.Step("%s", e.name)
+		c.Step("%s%s", e.name, burst.Begin())
 		e.run()
 		if quiesce() {
 			return
@@ -391,6 +472,7 @@ func c15Run(c *verifeng.Chooser, depth, ntx int) {
 	if c.Failed() {
 		return
 	}
+	burst.Off()
 	// ---- wind down: Stop, let every parked callback return, 10 minutes.
 	if !stopped {
 		stopped = true
@@ -475,7 +557,7 @@ func TestVFXC15(t *testing.T) {
 		}
 		fmt.Sscanf(v.Config, "depth=%d txs=%d", &depth, &ntx)
 		e := verifeng.FromEnv(v.Harness, v.Config)
-		_, x, err := e.ReplayFile(rp, c15Body(t, depth, ntx))
+		_, x, err := e.ReplayFile(rp, c15Body(t, depth, ntx, strings.Contains(v.Config, "in-burst")))
 		if err != nil {
 			t.Fatal(err)
 		}
@@ -490,7 +572,17 @@ func TestVFXC15(t *testing.T) {
 		return
 	}
 	e := verifeng.FromEnv("C15-broadcaster", fmt.Sprintf("depth=%d txs=%d", depth, ntx))
-	e.Run(c15Body(t, depth, ntx))
+	e.Run(c15Body(t, depth, ntx, false))
+	if err := verifeng.AppendResult(&e.Res); err != nil {
+		t.Fatal(err)
+	}
+	// the same with the order inside a burst as a further dimension: every
+	// history up to a smaller depth, and in each at most one scheduler or
+	// select deviation (delay-bounded scheduling, DESIGN 3.7)
+	bd := depth - 2
+	e = verifeng.FromEnv("C15-broadcaster", fmt.Sprintf("depth=%d txs=%d in-burst deviations<=1", bd, 2))
+	e.MaxDev = 1
+	e.Run(c15Body(t, bd, 2, true))
 	if err := verifeng.AppendResult(&e.Res); err != nil {
 		t.Fatal(err)
 	}
